@@ -12,7 +12,7 @@ scalar-vs-series); labels range over representatives of every class the code dis
 """
 from fractions import Fraction
 import z3
-from pyvc.vc import Contract
+from pyvc.vc import Contract, Ref
 from pyvc.spec import V, And, Or, Not, Implies, If, Abs, Min, Max, Sum, Iff, unwrap
 from pyvc.values import Arr, Sym, Obj
 
@@ -284,6 +284,34 @@ class Construct(Contract):
                 "values_are_the_elementwise_result": same_values(res, p["vals"])}
 
 
+class OwnStorage(Contract):
+    """'Never modifies its operands', one step later: a Food built from numpy arrays owns its numbers - an in-place
+    edit of the RESULT (set_to_zero_after_month writes into the result's arrays) leaves the arrays it was built from as
+    they were.  (A constructor that kept the caller's arrays would pass every single-operation frame clause.)"""
+    prop = "C11"
+    file = FOOD
+    func = "Food"
+    name = "Food(plain[]) then an in-place edit of the result"
+    np_floats = True
+
+    def inputs(self, S):
+        conv(S)
+        labels = BASES["plain"]
+        vals = [S.series(n, N3) for n in ("k", "f", "p")]
+        self.before = [[unwrap(v).get(i) for i in range(N3)] for v in vals]
+        self.arrays = [unwrap(v) for v in vals]
+        lab = tuple(l + EACH for l in labels)
+        calls = [dict(func="Food", args=[vals[0], vals[1], vals[2], *lab]),
+                 dict(func="Food.set_to_zero_after_month", args=[Ref(0), 1])]
+        return dict(calls=calls)
+
+    def ensures(self, S, p, res):
+        same = [V(a.get(i)) == V(b[i]) for a, b in zip(self.arrays, self.before) for i in range(N3)]
+        edited = V(unwrap(res)[0]).kcals[N3 - 1] == 0
+        return {"arrays_the_food_was_built_from_are_left_as_they_were": And(*same),
+                "the_edit_reached_the_result": edited}
+
+
 class MinElementwise(Contract):
     prop = "C11"
     file = FOOD
@@ -432,6 +460,7 @@ def _mk():
         for fat in (True, False):
             for prot in (True, False):
                 cs.append(Predicate(pr, fat, prot))
+    cs.append(OwnStorage())
     return cs
 
 
